@@ -67,6 +67,7 @@ func makeScenarios(c *core.Ctx, n int) []Scenario {
 		if eng == "disk" && c.Rand.Intn(4) == 0 {
 			sc.Unsafe = true
 		}
+		sc.Close2 = c.Rand.Intn(3) == 0
 		total := sc.Workers * sc.Ops
 		switch {
 		case eng == "disk" && c.Rand.Intn(2) == 0:
@@ -377,7 +378,7 @@ func run(c *core.Ctx) error {
 	c.SetExhaustive(false)
 	c.SetRule("one distinct case per (engine, Close trigger kind and gate, sorted set of operations in flight when Close was called, perturbation level); trivial = nothing in flight at Close")
 	c.Assume("Proto.tla abstracts data away: segment/bolt I/O errors and introduceSegment's DocNumbers error path are not modelled")
-	c.Assume("usage quantified over: FieldDict is closed by the goroutine that opened it without calling other index methods in between; Close is called once; ForceMerge only on an index with a merger loop (each excluded usage is a hazard configuration of its own)")
+	c.Assume("usage quantified over: FieldDict is closed by the goroutine that opened it without calling other index methods in between; (the excluded usage - another index method called while a dictionary is open - is the hazard configuration Proto_hz_fd.cfg, an OPEN known finding). Close may be called any number of times, also concurrently; ForceMerge on any scorch index. The two repaired defects (second Close, ForceMerge without merger loop) stay as regression detectors: the old behaviour is a constant switch of Proto.tla whose TLC counterexample is enacted on the real code on every run")
 	c.Assume("weak fairness of every loop and of every goroutine inside a call (liveness); Go's select is modelled as a non-deterministic choice among ready arms")
 	c.Assume("data-race freedom is exploration-level evidence (race detector on executed schedules), not part of the model")
 
